@@ -235,6 +235,7 @@ def explore(ctx):
     if ctx.quick:
         bound = 2
         cases, results = ctx.run_lattice(MOD, "run_case", dims, bound, part="lattice<=2", canon=canon)
+        ctx.run_under(MOD, "run_case", cases[:1] + cases[7:10], ("-O",))
     else:
         small = OrderedDict(dims)
         small["shape"] = [s for s in dims["shape"] if s != [8, 10]]
